@@ -460,9 +460,9 @@ def check_C12(tier, seed):
                       'Completeness of the double-root characterisation (props/C12_firstzero.v, pure real analysis with the standard library and Coquelicot; props/C12_bridge.v over the regenerated program): '
                       'for g0 <> 0, if the truncated Jacobian vanishes for some r > 0 then the set of such r has a least element rc > 0, the zero at rc is a double root in theta '
                       '("smallest positive zero radius" = "smallest positive double-root radius", both unique), hence sin(2 theta) at the first zero is a root of the quartic the program solves at that grid point; '
-                      'with no positive zero there is no double root (sentinel case). These two files additionally use Classical_Prop.classic (through continuity_ab_min and Coquelicot).',
-                      gprops=False, gprops_from=[('C08', rs), ('C07', rs)], seq_obligations=[['props/C12_quartic.v', 'props/C12_firstzero.v']] + C01_SEQ_R2 + [['props/C12_jacobian.v', 'props/C12_bridge.v']], theory_obligations=['RootSelect', 'Series', 'FloatOrder'],
-                      theorems=['C12_quartic', 'C12_K_relation', 'C12_firstzero.first_zero_exists_and_is_double', 'C12_firstzero.first_zero_iff_least_double', 'C12_bridge.C12_first_zero_is_quartic_root', 'RootSelect.rc_is_sentinel_or_candidate', 'RootSelect.rc_minimal', 'RootSelect.no_candidate_sentinel',
+                      'with no positive zero there is no double root (sentinel case). The optional branch high_order=True is translated as a second variant; props/C12_highorder.v shows it binds every quantity of the default variant by the same expression (fresh names otherwise), so each of its runs is a model of the default program and all theorems above hold for it. The two analysis files additionally use Classical_Prop.classic (through continuity_ab_min and Coquelicot).',
+                      gprops=False, gprops_from=[('C08', rs), ('C07', rs)], seq_obligations=[['props/C12_quartic.v', 'props/C12_firstzero.v']] + C01_SEQ_R2 + [['props/C12_jacobian.v', 'props/C12_bridge.v', 'props/C12_highorder.v']], theory_obligations=['RootSelect', 'Series', 'FloatOrder'],
+                      theorems=['C12_quartic', 'C12_K_relation', 'C12_firstzero.first_zero_exists_and_is_double', 'C12_firstzero.first_zero_iff_least_double', 'C12_bridge.C12_first_zero_is_quartic_root', 'C12_highorder.ho_models_default', 'C12_highorder.C12_quartic_run_ho', 'RootSelect.rc_is_sentinel_or_candidate', 'RootSelect.rc_minimal', 'RootSelect.no_candidate_sentinel',
                                 'RootSelect.rsing_min_le', 'RootSelect.quadratic_candidate_exact', 'RootSelect.linear_candidate_exact',
                                 'C12_jacobian.C12_coefficients_r2', 'C12_jacobian.C12_coefficients_r3', 'C12_jacobian.C12_jacobian_h0', 'C12_jacobian.C12_jacobian_hN', 'C12_jacobian.g1s_vanishes',
                                 'FloatOrder.rc_minimal_float', 'FloatOrder.rc_minimal_quadratic_float', 'FloatOrder.r_singularity_minimal_float', 'FloatOrder.rsing_min_le_float', 'FloatOrder.rc_not_nan_float',
